@@ -314,7 +314,8 @@ SPEC = PropertySpec(
     replay=replay,
     gen=translate.generate,
     rule=('real from_lammps (generated xyz + LAMMPS data file), from_vasprun (generated minimal vasprun.xml) and from_gromacs '
-          '(MDAnalysis.Universe stubbed) in scratch directories: reference = load with no cache present, per argument variant; '
+          '(MDAnalysis.Universe stubbed) in scratch directories, once with source coordinates inside the box and once with atoms that left it (unwrapped): parsed positions '
+          '= source coordinates modulo the cell; reference = load with no cache present, per argument variant; '
           'argument matrix (temperature, time_step, type_mapping, atom_style, constant_lattice, parser kwargs) loaded twice in random '
           'order with caches present: every load must equal the reference for ITS arguments, variants that parse differently must use '
           'different default cache files; the real cache file truncated at byte k (quick: first/last 48 bytes + 40 random; thorough: '
